@@ -10,7 +10,7 @@
      no_zero    : no container has end = 0, no End has index 0.
    tape_wfb is the executable checker (the one the harness-side oracle mirrors). *)
 From JV Require Import Bytes Tables TextTok TextTape TextTapeWf.
-From JV.proofs Require Import TextTapeWfProofs TextTapeInvProofs.
+From JV.proofs Require Import TextTapeWfProofs TextTapeInvProofs TextTapeScalarProofs.
 Open Scope nat_scope.
 
 (* ALL byte strings: stray `}`, missing `}`, mixed containers, `{}` ghosts, parameters, headers *)
@@ -53,6 +53,22 @@ Theorem C06_text_parse_grammar : forall input t bom, parse input = Ok (t, bom) -
 Proof. exact parse_closed. Qed.
 Print Assumptions C06_text_parse_grammar.
 
+(* every scalar token (Unquoted, Quoted, Parameter, UndefinedParameter, Header) is a slice
+   input[a .. a+|s|) of the input, and the start offsets a are strictly increasing in tape order
+   ([scalars input lo t hi], TextTapeWf.v; a quoted scalar's slice is its content without the
+   quotes).  The model's scanners are the real ones: the offsets are reconstructed from the
+   suffix structure of the data (every scanner returns a suffix and consumes >= 1 byte). *)
+Theorem C06_text_scalars_in_input : forall input t bom,
+  parse input = Ok (t, bom) -> scalars_in_input input t.
+Proof. exact parse_scalars. Qed.
+Print Assumptions C06_text_scalars_in_input.
+
+(* the whole text half in one statement *)
+Theorem C06_text_parse_sound : forall input t bom,
+  parse input = Ok (t, bom) -> tape_wf t /\ scalars_in_input input t.
+Proof. intros input t bom H. split; [exact (parse_wf _ _ _ H)|exact (parse_scalars _ _ _ H)]. Qed.
+Print Assumptions C06_text_parse_sound.
+
 (* non-vacuity: `a={b=c {} d<e} f={g=h` is accepted (mixed container, ghost, missing closer) with
    containers on the tape; and the checker does reject broken tapes *)
 Example C06_text_nonvacuous :
@@ -67,3 +83,7 @@ Example C06_text_checker_rejects :
   tape_wfb [TUnquoted []; TArray 3 false; TObject 2 false; TEnd 1; TEnd 2] = false /\
   tape_wfb [TArray 1 false; TEnd 0] = false.
 Proof. repeat split; vm_compute; reflexivity. Qed.
+
+Example C06_text_scalars_rejects :
+  ~ scalars_in_input [97; 98]%N [TUnquoted [98]%N; TUnquoted [97]%N].
+Proof. exact scalars_rejects_swapped. Qed.
